@@ -66,9 +66,13 @@ def cases(draw):
                 {'kind': 'static', 'dir': draw(st.sampled_from(DIRS)),
                  'deps': [], 'whole': []},
                 {'kind': draw(st.sampled_from(['shared', 'versioned'])),
-                 'dir': draw(st.sampled_from(DIRS)), 'deps': [0, 1],
-                 'whole': [0, 1]}]
+                 'dir': draw(st.sampled_from(DIRS + ['plugins only'])),
+                 'deps': [0, 1], 'whole': [0, 1],
+                 # a bundle without objects of its own
+                 'nosrc': draw(st.booleans())}]
         nlib = draw(st.integers(3, 5))
+    if libs and libs[-1].get('nosrc'):
+        libs[-1]['dir'] = 'plugins only'    # a directory nothing else uses
     for i in range(len(libs), nlib):
         kind = draw(st.sampled_from(['static', 'static', 'shared', 'shared',
                                      'dual', 'versioned']))
@@ -121,8 +125,9 @@ def cases(draw):
 def value(case, i, memo=None):
     memo = {} if memo is None else memo
     if i not in memo:
-        memo[i] = (i + 1) + sum(value(case, d, memo)
-                                for d in case['libs'][i]['deps'])
+        own = 0 if case['libs'][i].get('nosrc') else i + 1
+        memo[i] = own + sum(value(case, d, memo)
+                            for d in case['libs'][i]['deps'])
     return memo[i]
 
 
@@ -150,7 +155,11 @@ def render(case, src):
         # that ends up in a shared one must be position independent
         # dependents reach the library through h_<i>, which lives in a
         # second object that the program itself never refers to
-        body = ''.join('int h_{}(void);\n'.format(d) for d in lib['deps'])
+        hdeps = []
+        for d in lib['deps']:
+            hdeps += case['libs'][d]['deps'] if case['libs'][d].get('nosrc') \
+                else [d]
+        body = ''.join('int h_{}(void);\n'.format(d) for d in hdeps)
         m = ''
         if lib.get('mopt'):
             body = '#include <math.h>\nvolatile double vg_{} = 4.0;\n'.format(
@@ -158,7 +167,7 @@ def render(case, src):
             m = ' + ((int)sqrt(vg_{}) - 2)'.format(i)
         body += 'int g_{0} = {1};\nint f_{0}(void) {{ return g_{0}{2}{3}; }}\n' \
             .format(i, i + 1, ''.join(' + h_{}()'.format(d)
-                                      for d in lib['deps']), m)
+                                      for d in hdeps), m)
         sandbox.write_file(os.path.join(src, 'l{}.c'.format(i)), body)
         # a third object nothing in the project's libraries refers to: only
         # a whole-archive link carries it along
@@ -181,16 +190,25 @@ def render(case, src):
             (['-u', 'w_{}'.format(i)] if lib.get('uopt') else [])
         if lo:
             extra += ", link_options={!r}".format(lo)
+        if lib.get('nosrc'):
+            L.append("v{0} = {1}({2!r}{3}{4})".format(
+                i, fn, name, ', libs=[{}]'.format(deps), extra))
+            continue
         L.append("v{0} = {1}({2!r}, ['l{0}.c', 'l{0}_b.c', 'l{0}_w.c']{3}{4})"
                  .format(
             i, fn, name, ', libs=[{}]'.format(deps) if deps else '', extra))
     for j, exe in enumerate(case['exes']):
         body = '#include <stdio.h>\n'
-        body += ''.join('int f_{}(void);\n'.format(d) for d in exe['deps'])
+        calls = []
+        for d in exe['deps']:
+            # (a bundle without sources exports what it took in whole)
+            calls += case['libs'][d]['deps'] if case['libs'][d].get('nosrc') \
+                else [d]
+        body += ''.join('int f_{}(void);\n'.format(d) for d in calls)
         ws = whole_symbols(case, exe)
         body += ''.join('int w_{}(void);\n'.format(d) for d in ws)
         body += 'int main(void) {{ printf("%d\\n", 1000{}{}); return 0; }}\n' \
-            .format(''.join(' + f_{}()'.format(d) for d in exe['deps']),
+            .format(''.join(' + f_{}()'.format(d) for d in calls),
                     ''.join(' + w_{}()'.format(d) for d in ws))
         sandbox.write_file(os.path.join(src, 'm{}.c'.format(j)), body)
         name = (exe['dir'] + '/' if exe['dir'] else '') + 'prog{}'.format(j)
